@@ -1,5 +1,6 @@
 import MetricsVerif.Driver.Util
 import MetricsVerif.Model.PromFmt
+import MetricsVerif.Model.PromNum
 
 namespace MetricsVerif.Driver.C08
 open MetricsVerif.Driver MetricsVerif.PromFmt
@@ -29,6 +30,7 @@ def handle (args : List String) : Option String :=
     let gl ← listTok (pairTok unhexChars unhexChars) gl
     let (pn, pl) := keyToParts n kl gl
     pure s!"{hexChars pn} {showList hexChars pl}"
+  | ["letext", n] => do pure (hexChars (PromNum.dyText (← n.toInt?)))
   | _ => none
 
 end MetricsVerif.Driver.C08
